@@ -68,14 +68,24 @@ def impl_eval(case):
                 m = CRevisionModel(prior, [])
                 cur = {}
                 pool = {c.index: c for c in mk_conds(names, case["pool"])}
-                for op, k in case["history"]:
+                pool2 = {c.index: c for c in mk_conds(names, case.get("pool2") or case["pool"])}
+                for step in case["history"]:
+                    # [op, key, variant, compile_after]: an index may be re-used for a DIFFERENT conditional (variant), and the model
+                    # is not compiled after every update (several updates may be pending when it is next asked)
+                    op, k = step[0], step[1]
+                    variant = step[2] if len(step) > 2 else 0
+                    check = step[3] if len(step) > 3 else True
                     if op == "add" and k not in cur:
-                        m.add_conditional(pool[k])
-                        cur[k] = pool[k]
+                        cnd = (pool2 if variant else pool)[k]
+                        m.add_conditional(cnd)
+                        cur[k] = cnd
                     elif op == "remove":
                         m.remove_conditional(k)
                         cur.pop(k, None)
-                    hist.append([canon(m.to_compilation()), canon(compile_alt(prior, list(cur.values())))])
+                    if check:
+                        hist.append([canon(m.to_compilation()), canon(compile_alt(prior, list(cur.values())))])
+                    else:
+                        hist.append(None)
                 out["history"] = hist
             except Exception as e:  # noqa: BLE001
                 out["history_err"] = f"{type(e).__name__}: {e}"[:200]
@@ -172,7 +182,10 @@ def compare(case, impl, resp, tags):
     if "history_err" in impl:
         fail("incremental model raised " + impl["history_err"].split(":")[0], impl["history_err"], "compilations")
     else:
-        for i, (got, want) in enumerate(impl.get("history", [])):
+        for i, pair in enumerate(impl.get("history", [])):
+            if pair is None:
+                continue
+            got, want = pair
             if got != want:
                 fail("incremental model after an add/remove sequence differs from a fresh compilation", {"step": i, "got": got}, want)
                 break
@@ -192,7 +205,7 @@ def compare(case, impl, resp, tags):
                 if ok != "1":
                     fail("Pareto front contains parameters whose revised ranking does not accept every revision conditional", list(vecs[j]), per)
                     break
-                if pareto != "1":
+                if pareto == "0":
                     fail("Pareto front contains a vector that is not Pareto-minimal", list(vecs[j]), "a smaller vector works")
                     break
             r0 = impl.get("results", [None])[0]
@@ -248,7 +261,7 @@ def compare(case, impl, resp, tags):
                          {"parameters": d, "accepted": per}, "all accepted", mode)
                 else:
                     fail(f"the revised ranking does not accept every revision conditional ({label})", {"parameters": d, "accepted": per}, "all accepted", mode)
-            elif mode["gpz"] and not mode.get("fixed_minus") and not mode.get("fixed_plus") and pareto != "1":
+            elif mode["gpz"] and not mode.get("fixed_minus") and not mode.get("fixed_plus") and pareto == "0":
                 fail(f"gamma- vector is not Pareto-minimal ({label})", d, "a smaller vector works", mode)
     seen, out = set(), []
     for f in fails:
@@ -342,10 +355,35 @@ def gen_case(rng):
         else:
             c = core.gen_cond(rng, n, 2, 0.05)
             pool.append([key, c[0], c[1]])
+    pool2 = []
+    for key, b, a in pool:
+        r = rng.random()
+        if r < 0.4:
+            pool2.append([key, ("!", b), a])
+        elif r < 0.7 and n >= 2:
+            x, y = rng.sample(range(n), 2)
+            pool2.append([key, ("a", y) if rng.random() < 0.5 else ("!", ("a", y)), ("a", x)])
+        else:
+            c = core.gen_cond(rng, n, 2, 0.05)
+            pool2.append([key, c[0], c[1]])
     hist = []
-    for _ in range(rng.randint(2, 7)):
-        hist.append(["add" if rng.random() < 0.65 else "remove", rng.choice(pool_keys)])
-    return {"n": n, "ranks": ranks, "conds": conds, "modes": modes, "pool": pool, "history": hist,
+    live = set()
+    steps = rng.randint(2, 9)
+    for i in range(steps):
+        if live and rng.random() < 0.4:
+            k = rng.choice(sorted(live))
+            live.discard(k)
+            hist.append(["remove", k, 0, rng.random() < 0.45])
+            if rng.random() < 0.5:
+                # the freed index is taken by a different conditional straight away
+                hist.append(["add", k, rng.randrange(2), rng.random() < 0.6])
+                live.add(k)
+        else:
+            k = rng.choice(pool_keys)
+            hist.append(["add", k, rng.randrange(2), rng.random() < 0.6])
+            live.add(k)
+    hist[-1][3] = True
+    return {"n": n, "ranks": ranks, "conds": conds, "modes": modes, "pool": pool, "pool2": pool2, "history": hist,
             "front": len(conds) <= 3 and rng.random() < 0.6}
 
 
